@@ -71,7 +71,7 @@ def gen_case(rng, supervised):
     prior = gen.grid(A.T.dot(A) + np.eye(d), bits=5)
   else:
     prior = prior_kind
-  prior_arg = prior.copy() if isinstance(prior, np.ndarray) else prior      # what the estimator gets
+  prior_arg = gen.layout(rng, prior) if isinstance(prior, np.ndarray) else prior      # what the estimator gets (any memory layout)
   seed = int(rng.integers(1000))
   alpha = float(rng.choice([0.01, 0.05, 0.25, 1.0]))
   if supervised:
